@@ -84,6 +84,15 @@ func (u undelegateTx) Validate(ctx *action.Context, tx action.SignedTx) (bool, e
 		return false, action.ErrInvalidAddress
 	}
 
+	// the amount must be a non negative amount of OLT
+	coin := ud.Amount.ToCoin(ctx.Currencies)
+	if !coin.IsValid() {
+		return false, errors.Wrap(action.ErrInvalidAmount, ud.Amount.String())
+	}
+	if coin.Currency.Name != "OLT" {
+		return false, errors.Wrap(action.ErrInvalidCurrency, ud.Amount.Currency)
+	}
+
 	return true, nil
 }
 
